@@ -400,6 +400,10 @@ pub fn judge(f: F, args: &[Arg], variant: Variant, well_typed: bool, st: &mut St
     Ok(())
 }
 
+pub fn gen_tuple_pub(src: &mut Src, f: F) -> (Vec<Arg>, bool) {
+    gen_tuple(src, f)
+}
+
 fn gen_tuple(src: &mut Src, f: F) -> (Vec<Arg>, bool) {
     let ks = kinds(f);
     let mut args: Vec<Arg> = vec![];
